@@ -117,6 +117,18 @@ CLAIMED = {
         technique="Rocq proof (step simulation + invariant over all histories) + translator-regenerated state machine + in-Coq differential correspondence on a threaded rig",
         design="5/C05",
     ),
+    "C08": dict(
+        text="Theorems (Props/C08.v) over the callback tables that harness/gen_callbacks.py regenerates from the GEM handler classes (every _on_sXXfYY of the equipment and host "
+             "class hierarchies with the ways it can finish, read off its return statements): every way a shipped callback returns is the secondary (same stream, function+1), "
+             "possibly sent by the callback itself with everything after it guarded (C08_shipped_callbacks, decided over the finite tables); hence for ALL stream/function "
+             "numbers, registered or not, and every way the callback can finish including an exception, a primary with W-bit gets exactly one reply - secondary, SxF0 or S9F5 "
+             "(C08_answered_exactly_once); without W-bit the handler is silent exactly when nothing is registered (C08_no_wbit_silent_iff), which refutes the statement's last "
+             "sentence (C08_reply_without_wbit_refuted, known finding). Tied to the code by sending generated, empty and garbage bodies to real handlers in both roles.",
+        note=NOTE_COMMON + " The dispatch function itself (_handle_stream_function) and 'replies use message.header.system' are hand-modelled and tied by correspondence; which "
+             "bodies make a callback raise is not modelled (every outcome is quantified over instead).",
+        technique="Rocq proof (universal statement over regenerated finite callback tables) + Python-ast translator + in-Coq differential correspondence on real handlers",
+        design="5/C08",
+    ),
     "C11": dict(
         text="Theorems (Props/C11.v): for each of the 8 configured defaults and EVERY history of operator switches, S1F15/S1F17 and event enable/disable, the "
              "model's control state is E30's, what it sends (S1F1 probe, S1F16/S1F18 with the code, collection events when enabled) is among what E30 admits and "
